@@ -41,7 +41,7 @@ META = {
                    "Counterexamples are replayed on real temporary files with the real open()/mmap.",
     "bounds": {"quick": {"content_length": "<=2 all shapes over {\\n,1,2,3,4-byte}; 7 selected shapes of length 3",
                          "interleaving_words": "<=3 ops"},
-               "thorough": {"content_length": "<=3 all shapes; length 4 over {\\n,1-byte,3-byte}",
+               "thorough": {"content_length": "<=3 all shapes; length 4 over {\\n,1-byte,3-byte}; two 4-line shapes (7-8 chars) for indexing and 4-entry custom indexes",
                             "interleaving_words": "<=4 ops"}},
     "outside_bounds": ["longer contents", "lone surrogates (not encodable)", "I/O buffer boundaries of CPython's "
                        "TextIOWrapper/BufferedReader (the stub models their documented semantics, validated "
@@ -236,11 +236,11 @@ def slices(content: str, i: int, j: int) -> bool:
         fs.cleanup()
 
 
-def custom_index(content: str, p0: int, p1: int, p2: int, q: int) -> bool:
+def custom_index(content: str, p0: int, p1: int, p2: int, p3: int, q: int) -> bool:
     """
     pre: shape_ok(content)
     pre: 0 <= p0 < max(1, len(h.P['shape'])) and 0 <= p1 < max(1, len(h.P['shape'])) and 0 <= p2 < max(1, len(h.P['shape']))
-    pre: -4 <= q <= 3
+    pre: 0 <= p3 < max(1, len(h.P['shape'])) and -5 <= q <= 4
     post: _
     """
     # a caller-supplied offset index (subset / permutation / repetition of the true line offsets) is honoured
@@ -253,7 +253,7 @@ def custom_index(content: str, p0: int, p1: int, p2: int, q: int) -> bool:
         variant = h.P["variant"]
         if n == 0:
             return h.ok()
-        sel = [p0, p1, p2][:k]
+        sel = [p0, p1, p2, p3][:k]
         for s in sel:
             if s >= n:
                 return True
@@ -384,6 +384,7 @@ def shapes_for(tier):
         for L in range(0, 4):
             sh += _shapes(L, full)
         sh += _shapes(4, small)
+        sh += ["1n1n1n1", "1n1n1n3n"]  # four distinguishable lines (only basic + 4-entry custom index jobs)
     return sh
 
 
@@ -394,6 +395,12 @@ def jobs(tier):
     words = _words(3 if tier == "quick" else 4)
     for sh in shapes:
         nl = sh.count("n") + (1 if sh and not sh.endswith("n") else 0)
+        if len(sh) > 4:
+            for v in ("text", "mmap"):
+                out.append(Job("C11", "harness.c11", "basic", {"shape": sh, "variant": v}, timeout=3000, name="basic[%s,%s]" % (v, sh)))
+                out.append(Job("C11", "harness.c11", "custom_index", {"shape": sh, "variant": v, "k": 4, "source": "list"},
+                               timeout=3000, name="custom_index[%s,%s,k=4,list]" % (v, sh)))
+            continue
         for v in VARIANTS:
             out.append(Job("C11", "harness.c11", "basic", {"shape": sh, "variant": v}, timeout=T, name="basic[%s,%s]" % (v, sh or "-")))
         for v in ("text", "mmap"):
@@ -408,6 +415,10 @@ def jobs(tier):
                             continue
                         out.append(Job("C11", "harness.c11", "custom_index", {"shape": sh, "variant": v, "k": k, "source": source},
                                        timeout=T, name="custom_index[%s,%s,k=%d,%s]" % (v, sh, k, source)))
+        if tier != "quick" and nl >= 4:
+            for v in ("text", "mmap"):
+                out.append(Job("C11", "harness.c11", "custom_index", {"shape": sh, "variant": v, "k": 4, "source": "list"},
+                               timeout=3000, name="custom_index[%s,%s,k=4,list]" % (v, sh)))
         if nl >= 2:
             for v in ("text", "mmap"):
                 for w in words:
